@@ -1,3 +1,4 @@
+import RsyncModel.WireInt
 /-! # Semantics of the Go subset that `tools/extract/pure.go` translates
 
 `Gen/Pure.lean` (regenerated from /repo on every run) is written against these few definitions.
@@ -52,6 +53,29 @@ def loop {σ : Type} (fuel : Nat) (cond : σ → Bool) (body : σ → Res σ) (s
   match fuel with
   | 0 => if cond s then .panic else .ok s
   | n + 1 => if cond s then bind (body s) (loop n cond body) else .ok s
+
+/-- `for { … break / continue / return err … }`: the body yields the new state and whether to go round
+again; exceeding the bound on the number of iterations is `panic` -/
+def loopB {σ : Type} (fuel : Nat) (body : σ → Res (σ × Bool)) (s : σ) : Res σ :=
+  match fuel with
+  | 0 => .panic
+  | n + 1 => bind (body s) fun r => if r.2 then loopB n body r.1 else .ok r.1
+
+/-- `c.ReadInt32()` on a connection whose pending input is `inp`: four bytes, little endian; a short input is an error -/
+def readI32 (inp : List UInt8) : Res (Int32 × List UInt8) :=
+  match Wire.decI32 inp with
+  | none => .err
+  | some r => .ok r
+
+/-- `io.ReadFull(conn, buf)` with `len(buf) = n`: all `n` bytes or an error -/
+def readFull (inp : List UInt8) (n : Int) : Res (List UInt8 × List UInt8) :=
+  if n < 0 ∨ (inp.length : Int) < n then .err else .ok (inp.take n.toNat, inp.drop n.toNat)
+
+/-- `f.ReadAt(buf, off)` with `len(buf) = n` on a file with content `b`: all `n` bytes or an error
+(an empty buffer reads nothing and succeeds) -/
+def readAt (b : List UInt8) (off n : Int) : Res (List UInt8) :=
+  if n = 0 then .ok []
+  else if 0 ≤ off ∧ 0 ≤ n ∧ off + n ≤ (b.length : Int) then .ok ((b.drop off.toNat).take n.toNat) else .err
 
 /-- `int32(math.Sqrt(float64(n)))` for `0 ≤ n < 2^52`, where the double-precision square root
 truncates to the integer square root (assumption recorded in the trusted base; the `sumsizes`
